@@ -92,25 +92,38 @@ def parse_trace(text):
     return res
 
 
+def fsb(s):
+    """Harness convention: a str path stands for the bytes s.encode('latin-1'), so that file names may contain ANY byte
+    (8-bit, invalid UTF-8) and the configuration (written as latin-1), the tree, the trace and the model requests agree."""
+    if isinstance(s, bytes):
+        return s
+    try:
+        return s.encode('latin-1')
+    except UnicodeEncodeError:
+        return os.fsencode(s)
+
+
 def snapshot(root, skip=()):
-    """{relative path: (kind, sha1/size or None, mtime ns)} for everything below root."""
+    """{relative path: (kind, sha1/size or None, mtime ns)} for everything below root (names as latin-1 str, see fsb)."""
     snap = {}
-    for dp, dns, fns in os.walk(root):
-        rel = os.path.relpath(dp, root)
+    rootb = fsb(root)
+    R = lambda p: os.path.relpath(p, rootb).decode('latin-1')
+    for dp, dns, fns in os.walk(rootb):
+        rel = R(dp)
         if any(rel == s or rel.startswith(s + '/') for s in skip):
             dns[:] = []
             continue
         for dn in dns:
             p = os.path.join(dp, dn)
-            snap[os.path.relpath(p, root)] = ('dir', None, None)
+            snap[R(p)] = ('dir', None, None)
         for fn in fns:
             p = os.path.join(dp, fn)
             try:
                 st = os.lstat(p)
                 data = open(p, 'rb').read()
-                snap[os.path.relpath(p, root)] = ('file', data, st.st_mtime_ns)
+                snap[R(p)] = ('file', data, st.st_mtime_ns)
             except OSError:
-                snap[os.path.relpath(p, root)] = ('unreadable', None, None)
+                snap[R(p)] = ('unreadable', None, None)
     return snap
 
 
@@ -126,10 +139,10 @@ class Scenario:
         self.config = config.replace('@R@', self.root)
         self.stdin = stdin
         self.args = list(args)
-        self.env_extra = env or {}
+        self.env_extra = {k: v.replace('@R@', self.root) for k, v in (env or {}).items()}
         self.devmap = [d.replace('@R@', self.root) for d in devmap]
         for rel, data in tree.items():
-            p = os.path.join(self.root, rel)
+            p = os.path.join(fsb(self.root), fsb(rel))
             if data is None:
                 os.makedirs(p, exist_ok=True)
             else:
@@ -145,7 +158,7 @@ class Scenario:
             for i, rel in enumerate(sorted(r for r, d in tree.items() if d is not None)):
                 mtimes[rel] = (1600000000 + 86400 * i) * 10**9 + 123456789 + i
         for rel, t in (mtimes or {}).items():
-            os.utime(os.path.join(self.root, rel), ns=(t, t))
+            os.utime(os.path.join(fsb(self.root), fsb(rel)), ns=(t, t))
         os.makedirs(os.path.join(self.root, 'tmp'), exist_ok=True)
         os.makedirs(os.path.join(self.root, 'home'), exist_ok=True)
         with open(os.path.join(self.root, 'conf'), 'w', encoding='latin-1') as fh:
@@ -190,6 +203,7 @@ class Scenario:
             if fsize is not None:
                 env['VSHIM_FSIZE'] = str(int(fsize))
         env.update(self.env_extra)
+        env = {fsb(k): fsb(v) for k, v in env.items()}      # values may name directories with arbitrary bytes (HOME, TMPDIR)
         cmd = [self.tools.mdsort, '-f', os.path.join(self.root, 'conf')] + self.args
         sin = None
         if self.stdin_file and self.stdin is not None:
